@@ -7,15 +7,8 @@ Import ListNotations.
 Local Open Scope Z_scope.
 
 Inductive finding :=
-| F_fetch_star          (* FETCH *      -> every message *)
-| F_fetch_comma         (* FETCH a,b    -> BAD *)
-| F_fetch_star_first    (* FETCH *:n    -> message n only *)
-| F_fetch_reversed      (* FETCH a:b, a>b -> message a only *)
-| F_fetch_beyond        (* FETCH n:*, n>N -> nothing instead of N *)
-| F_search_star | F_search_comma | F_search_star_first | F_search_reversed
-| F_search_beyond | F_search_huge
 | F_uidsearch_shape     (* UID SEARCH UID <set>: only a:b with a<=b is implemented *)
-| F_noop_notices.       (* NOOP/IDLE announce "last..current+1" *)
+| F_noop_notices.       (* NOOP/IDLE derive their notices from the count difference only *)
 
 Definition zlist_eqb (a b : list Z) : bool :=
   Nat.eqb (length a) (length b) && forallb (fun '(x, y) => x =? y) (combine a b).
@@ -40,31 +33,6 @@ Definition copy_ok (s : seqset) (n : Z) (got : option (list Z)) : bool :=
   end.
 
 (** ---- classification ---- *)
-Definition classify_fetch (s : seqset) (n : Z) : option finding :=
-  match s with
-  | [] => None
-  | [One Star] => if 2 <=? n then Some F_fetch_star else None
-  | [One (Num k)] => None
-  | [Range (Num a) (Num b)] => if (b <? a) && (b <=? n) then Some F_fetch_reversed else None
-  | [Range (Num a) Star] => if (n <? a) && (1 <=? n) then Some F_fetch_beyond else None
-  | [Range Star (Num b)] => if negb (b =? n) && (1 <=? n) then Some F_fetch_star_first else None
-  | [Range Star Star] => None
-  | _ :: _ :: _ => Some F_fetch_comma
-  end.
-
-Definition classify_search (s : seqset) (n : Z) : option finding :=
-  match s with
-  | [] => None
-  | [One Star] => if 2 <=? n then Some F_search_star else None
-  | [One (Num k)] => None
-  | [Range (Num a) (Num b)] => if (b <? a) && (b <=? n) then Some F_search_reversed else None
-  | [Range (Num a) Star] =>
-    if (n <? a) && (1 <=? n) then Some F_search_beyond
-    else if 999999 <? n then Some F_search_huge else None
-  | [Range Star _] => if 2 <=? n then Some F_search_star_first else None
-  | _ :: _ :: _ => Some F_search_comma
-  end.
-
 Definition classify_uidsearch (s : seqset) : option finding :=
   match s with
   | [Range (Num a) (Num b)] => if b <? a then Some F_uidsearch_shape else None
